@@ -37,6 +37,8 @@
 (* Call kinds (all target one user interface X at one path):               *)
 (*   "meth"     X.Work       (&self handler: holds X's read lock)          *)
 (*   "methmut"  X.WorkMut    (&mut self handler: holds X's write lock)     *)
+(*   "methnr"   X.Work with the NO_REPLY_EXPECTED flag: dispatched and run  *)
+(*              exactly like "meth", only no reply is written at the end    *)
 (*   "get"      Properties.Get of a property of X (getter: X read lock)    *)
 (*   "set"      Properties.Set (setter, &mut self: X write lock)           *)
 (*   "intro"    Introspect of the node (reads every interface; no user     *)
@@ -50,8 +52,9 @@ EXTENDS Naturals, Sequences, FiniteSets, TLC
 
 CONSTANT DEVS
 AllDevs == {"props_hold_root", "intro_holds_root", "lazy_subscribe"}
-Kinds   == {"meth", "methmut", "get", "set", "intro"}
-UserKinds == {"meth", "methmut"}            \* dispatched to X itself (subject to X's spawn flag)
+Kinds   == {"meth", "methmut", "methnr", "get", "set", "intro"}
+UserKinds == {"meth", "methmut", "methnr"}  \* dispatched to X itself (subject to X's spawn flag)
+NoReply(kd) == kd = "methnr"
 
 VARIABLES
   cfg,      \* [spawn |-> BOOLEAN, calls |-> sequence of [kind, body]]; never changes
@@ -174,7 +177,7 @@ AcqRootR(k) ==
 \* intro reads the introspection data and drops it (and the root lock, if still held)
 AcqIfR(k) ==
   /\ pc[k] = "ifR" /\ CanRead(ifl)
-  /\ IF Kind(k) \in {"meth", "get"}
+  /\ IF Kind(k) \in {"meth", "methnr", "get"}
      THEN ifl' = AddR(ifl, k) /\ pc' = [pc EXCEPT ![k] = "ready"] /\ UNCHANGED root
      ELSE IF Kind(k) = "intro"
      THEN pc' = [pc EXCEPT ![k] = "replied"] /\ root' = DelR(root, k) /\ UNCHANGED ifl
@@ -236,7 +239,7 @@ HEnd(k) ==   \* the user handler returns
 \* the handler has returned (pc = "ended"): write the reply, drop the locks, free the dispatcher
 Finish(k) ==
   /\ pc[k] = "ended"
-  /\ pc' = [pc EXCEPT ![k] = "replied"]
+  /\ pc' = [pc EXCEPT ![k] = IF NoReply(Kind(k)) THEN "done" ELSE "replied"]   \* nobody waits for a reply that is not owed
   /\ ifl' = IF ifl.w = k THEN FreeLock ELSE DelR(ifl, k)
   /\ root' = DelR(root, k)
   /\ disp' = IF disp.pc = "inline" /\ disp.k = k THEN [pc |-> "idle", k |-> 0] ELSE disp
